@@ -32,7 +32,7 @@ import (
 // C14, part "reorg": subscriptions and aggregation jobs follow the duties obtained after a reorg.
 //
 // The C03 controller world (real controller, real scheduler, real chain time) with the REAL beacon
-// committee subscriber, an aggregator stand-in that selects every validator, and a recording submitter.
+// committee subscriber, an aggregator stand-in that selects validators 1 and 3 but not 2, and a recording submitter.
 // One head event announces changed dependent roots and switches the beacon node to the second duty table.
 
 type c14rSub struct {
@@ -109,9 +109,11 @@ func (w *c14rWorld) Aggregate(_ context.Context, d *attestationaggregator.Duty) 
 func (w *c14rWorld) AggregatorsAndSignatures(_ context.Context, accounts []e2wtypes.Account, _ phase0.Slot, _ []uint64) ([]phase0.BLSSignature, []bool, error) {
 	sigs := make([]phase0.BLSSignature, len(accounts))
 	sel := make([]bool, len(accounts))
-	for i := range accounts {
-		sigs[i] = phase0.BLSSignature{7, byte(i)}
-		sel[i] = true
+	for i, a := range accounts {
+		// validators 1 and 3 are selected as aggregators, validator 2 is not; the slot signature names the account
+		sigs[i] = phase0.BLSSignature{7}
+		copy(sigs[i][1:], a.Name())
+		sel[i] = a.Name() != "v2"
 	}
 	return sigs, sel, nil
 }
@@ -167,13 +169,20 @@ func c14rBody(w *c14rWorld, startAt int64, ap [2]string, attestDur, subDelay int
 	if slotOff/c03SPE != 0 {
 		prev, cur = cur, cur+1
 	}
-	if kind == "prev" {
+	if c03Epoch0 == 0 {
+		// the duties of the first two epochs depend on the genesis state: no reorg can change them
+		kind = "same"
+	}
+	switch kind {
+	case "prev":
 		prev += 0x40
-	} else {
+	case "cur":
 		cur += 0x40
 	}
-	w.version = 1
-	w.reorgAt = mc.Now()
+	if kind != "same" {
+		w.version = 1
+		w.reorgAt = mc.Now()
+	}
 	deliver(kind, prev, cur)
 	mc.Sleep(w.slotStart(phase0.Slot((c03Epoch0+3)*c03SPE)) + int64(time.Second) - mc.Now())
 	w.done = true
@@ -241,7 +250,7 @@ func c14rCheck(w *c14rWorld, r *mc.Result) mc.Verdict {
 		}
 	}
 	// ... and every attestation made for a slot that was in the future when its duties were last obtained must be
-	// followed by one aggregation per committee with a selected aggregator (here: every validator is selected)
+	// followed by one aggregation per committee with a selected aggregator (here: validators 1 and 3)
 	for _, c := range w.attests {
 		epoch := phase0.Epoch(uint64(c.slot) / c03SPE)
 		var lf *c03Fetch
@@ -275,7 +284,9 @@ func c14rCheck(w *c14rWorld, r *mc.Result) mc.Verdict {
 		}
 		committees := map[phase0.CommitteeIndex]bool{}
 		for _, val := range c.vals {
-			committees[phase0.CommitteeIndex(val%2)] = true
+			if val != 2 { // validator 2 is never selected as aggregator
+				committees[phase0.CommitteeIndex(val%2)] = true
+			}
 		}
 		got := map[phase0.CommitteeIndex]int{}
 		for _, a := range w.aggs {
@@ -297,7 +308,7 @@ func c14rCheck(w *c14rWorld, r *mc.Result) mc.Verdict {
 		}
 		for cm, n := range got {
 			if !committees[cm] && n > 0 {
-				return fail("aggregation-job-unexpected", fmt.Sprintf("an aggregation ran for slot %d committee %d, for which no validator attested", c.slot, cm))
+				return fail("aggregation-job-unexpected", fmt.Sprintf("an aggregation ran for slot %d committee %d, in which no selected aggregator of ours attested", c.slot, cm))
 			}
 		}
 	}
@@ -314,7 +325,7 @@ func init() {
 		units := base(tier)
 		starts := []int64{0, int64(c03SlotDur) + int64(time.Second)}
 		for si, sa := range starts {
-			for _, ap := range [][2]string{{"A", "B"}, {"A", "C"}, {"E", "B"}, {"B", "E"}, {"A", "A"}} {
+			for _, ap := range [][2]string{{"A", "B"}, {"A", "C"}, {"E", "B"}, {"B", "E"}, {"A", "A"}, {"E", "F"}} {
 				sa, ap := sa, ap
 				w := &c14rWorld{}
 				u := hx.Unit{Name: fmt.Sprintf("C14/reorg/start%d/att%s%s", si, ap[0], ap[1]), Cfg: mc.Config{Deviation: true, Horizon: int64(40 * c03SlotDur)}, Bound: 0}
@@ -323,6 +334,23 @@ func init() {
 				}
 				u.Body = func() { c14rBody(w, sa, ap, 0, 0) }
 				u.Check = func(r *mc.Result) mc.Verdict { return c14rCheck(w, r) }
+				units = append(units, u)
+			}
+			// genesis: vouch runs in the first epochs of a chain (epoch arithmetic on unsigned values)
+			{
+				sa := sa
+				w := &c14rWorld{}
+				u := hx.Unit{Name: fmt.Sprintf("C14/reorg/start%d/genesis", si), Cfg: mc.Config{Deviation: true, Horizon: int64(40 * c03SlotDur)}, Bound: 0}
+				u.Body = func() {
+					c03Epoch0 = 0
+					c14rBody(w, sa, [2]string{"E", "E"}, 0, 0)
+				}
+				u.Check = func(r *mc.Result) mc.Verdict {
+					v := c14rCheck(w, r)
+					v.Nontrivial = true
+					c03Epoch0 = 2
+					return v
+				}
 				units = append(units, u)
 			}
 			// a slow attester (7 s) and a beacon node that takes its time over the subscriber's duty request: the
@@ -342,5 +370,5 @@ func init() {
 		}
 		return units
 	}
-	p.Rule += "; (reorg) the real controller + scheduler + subscriber run for three epochs with a head event announcing changed dependent roots in one of the next five slots (1 s or 6 s into the slot, previous or current root) and duty tables that move, drop or add duties: every duty handed out for a future slot is subscribed, and every attestation is followed by one aggregation per committee (all validators selected) at slot start + aggregation delay; the same with an attester that takes 7 s and a beacon node that takes 10 / 20 / 40 s over the subscriber's duty request: an aggregation is owed whenever the subscription information reached the controller before the attestations were made"
+	p.Rule += "; (reorg) the real controller + scheduler + subscriber run for three epochs with a head event announcing changed dependent roots in one of the next five slots (1 s or 6 s into the slot, previous or current root) and duty tables that move, drop or add duties: every duty handed out for a future slot is subscribed, and every attestation is followed by one aggregation per committee with a selected aggregator (validators 1 and 3 are selected, 2 is not) at slot start + aggregation delay; the same from the first epoch of the chain (epoch 0); the same with an attester that takes 7 s and a beacon node that takes 10 / 20 / 40 s over the subscriber's duty request: an aggregation is owed whenever the subscription information reached the controller before the attestations were made"
 }
